@@ -54,10 +54,11 @@ def transform(rng, t, kind):
                 # sum overflows; only on unshared nodes, because precision is lost down there and a shared
                 # infoset would then legitimately be rejected as unequal
                 k = 2.0 ** rng.choice([-1040, -1035, -1030, -1027, -1030, -1035, -1000, 900, 1010, 1015])
-                if rng.random() < 0.35:
-                    # the largest weight just below f64::MAX: with three or more comparable outcomes the sum exceeds 2 * MAX
-                    k = 2.0 ** (1024 - math.frexp(max(b2f(w) for w, _ in n["o"]))[1])      # largest weight in [2^1023, 2^1024)
                 ws = [b2f(w) * k for w, _ in n["o"]]
+                if rng.random() < 0.35:
+                    # the largest weight just below f64::MAX, in [2^1023, 2^1024) (ldexp: the factor itself may exceed the range)
+                    sh = 1024 - math.frexp(max(b2f(w) for w, _ in n["o"]))[1]
+                    ws = [math.ldexp(b2f(w), sh) for w, _ in n["o"]]
                 if all(w > 0.0 and math.isfinite(w) for w in ws):
                     n["o"] = [[f2b(w), c] for w, (_, c) in zip(ws, n["o"])]
                     flag["extreme"] = True
@@ -175,7 +176,36 @@ def generate(rng, tier, n):
         t, st = gen_tree(rng, max_nodes=rng.choice([8, 20, 40]), max_depth=rng.choice([3, 5, 6]), label_space=rng.choice([40, 1000]),
                          p_share=rng.choice([0.5, 0.8]), single_rate=rng.choice([0.1, 0.25]))
         kind = rng.choice(KINDS)
+        big = None
+        if kind == "rescale" and rng.random() < 0.4:
+            # an unshared chance node with three or more outcomes of comparable weight: in the transformed presentation
+            # the same weights times 2^1024, i.e. each in [0.75, 1) * 2^1024 (finite), their sum above 2 * f64::MAX
+            paths = []
+
+            def find(n, path):
+                if "o" in n:
+                    if n.get("c") is None and len(n["o"]) >= 3:
+                        paths.append(path)
+                    for k_, (_, c) in enumerate(n["o"]):
+                        find(c, path + (k_,))
+                elif "a" in n:
+                    for k_, (_, c) in enumerate(n["a"]):
+                        find(c, path + (k_,))
+            find(t, ())
+            if paths:
+                big = rng.choice(paths)
+                node = t
+                for k_ in big:
+                    node = (node["o"] if "o" in node else node["a"])[k_][1]
+                us = [0.75 + 0.25 * rng.random() * (1 - 2.0 ** -20) for _ in node["o"]]
+                node["o"] = [[f2b(u), c] for u, (_, c) in zip(us, node["o"])]
         t2, tinfo = transform(rng, t, kind)
+        if big is not None:
+            node = t2
+            for k_ in big:
+                node = (node["o"] if "o" in node else node["a"])[k_][1]
+            node["o"] = [[f2b(math.ldexp(u, 1024)), c] for u, (_, c) in zip(us, node["o"])]
+            tinfo["extreme"] = True
         inexact = kind in ("scale3", "shift")
         T = rng.choice([1, 2, 5, 10] if inexact else [1, 2, 5, 10, 30])
         preset = rng.choice(PRESETS)
